@@ -13,7 +13,7 @@ ASSUMPTIONS = ["reference vf/ref/ec.py + hashlib", "BSM signing is modelled as d
 NSHARDS = {"quick": 32, "thorough": 64}
 BUDGET_S = {"quick": 200, "thorough": 1800}
 MIN_HITS = {
-    'quick': {"sign": 128, "prefix_nonzero": 85, "len>=253": 80, "len>=65536": 32, "neg": 2512, "uncompressed": 57},
+    'quick': {"sign": 256, "prefix_nonzero": 202, "len>=253": 80, "len>=65536": 32, "neg": 7120, "uncompressed": 122},
     'thorough': {"sign": 15360, "prefix_nonzero": 10260, "len>=253": 5502, "len>=65536": 230, "neg": 245367, "uncompressed": 6178},
 }
 EDGE = [1, 2, 3, (ec.N - 1) // 2, (ec.N + 1) // 2, ec.N - 2, ec.N - 1]
@@ -45,13 +45,55 @@ def digest(msg):
 
 
 def cases(ctx):
+    yield from big_cases(ctx)
+    # every network prefix byte once per run (short message), spread over the shards
+    for p_ in range(ctx.shard, 256, ctx.nshards):
+        yield {"k": "bsm", "x": "%064x" % ctx.rnd.randrange(1, ec.N), "compressed": bool(p_ & 1), "msg": gen.rbytes(ctx.rnd, 12).hex(), "prefix": p_, "other": "%064x" % ctx.rnd.randrange(1, ec.N), "nonce": None, "seed": ctx.rnd.getrandbits(30), "framed": False}
     r = ctx.rnd
     t = ctx.tier == "thorough"
     lens = [0, 1, 252, 253, 254, 65535, 65536, 65537, 100000]
     for i in range(1500 if t else 8):
         x = r.choice(EDGE) if r.random() < 0.3 else r.randrange(1, ec.N)
         L = lens[i % len(lens)] if i < 2 * len(lens) and (t or i < 9) else r.choice([5, 20, 100, 300, r.randrange(0, 1000)])
-        yield {"k": "bsm", "x": "%064x" % x, "compressed": r.random() < 0.6, "msg": gen.rbytes(r, L).hex(), "prefix": r.choice([0, 0x6F, r.randrange(256)]), "other": "%064x" % r.randrange(1, ec.N), "nonce": (("%064x" % x) if r.random() < 0.3 else ("%064x" % r.randrange(1, ec.N))) if r.random() < 0.3 else None, "seed": r.getrandbits(30), "framed": i % 4 == 3}
+        yield {"k": "bsm", "x": "%064x" % x, "compressed": r.random() < 0.6, "msg": gen.rbytes(r, L).hex(), "prefix": [0, 0x6F, 0x05, 0xC4, 0xFF, 0x80][i % 6] if i % 2 == 0 else r.choice([0, 0x6F, r.randrange(256)]), "other": "%064x" % r.randrange(1, ec.N), "nonce": (("%064x" % x) if r.random() < 0.3 else ("%064x" % r.randrange(1, ec.N))) if r.random() < 0.3 else None, "seed": r.getrandbits(30), "framed": i % 4 == 3}
+
+
+def big_cases(ctx):
+    """thorough only: messages whose length needs the 5-byte (>= 65536 is covered above) and the 9-byte compact-size form (>= 2^32 bytes,
+    ~13 GiB peak in the driver), generated inside the driver"""
+    if ctx.tier == "thorough" and ctx.shard == 1:
+        yield {"k": "bsm_big", "x": "%064x" % ctx.rnd.randrange(1, ec.N), "len": (1 << 32) + 5}
+    if ctx.tier == "thorough" and ctx.shard == 2:
+        yield {"k": "bsm_big", "x": "%064x" % ctx.rnd.randrange(1, ec.N), "len": (1 << 24) + 3}
+
+
+def judge_big(ctx, case):
+    import hashlib
+
+    n = case["len"]
+    x = int(case["x"], 16)
+    ctx.hit("message>=2^32" if n >= 1 << 32 else "message>=2^24")
+    ctx.nontrivial()
+    h = hashlib.sha256()
+    h.update(wire.cs_enc(len(MAGIC)) + MAGIC + wire.cs_enc(n))
+    pat = bytes((31 * i + 7) & 0xFF for i in range(256)) * 4096  # 1 MiB, period 256
+    left = n
+    while left > 0:
+        take = min(left, len(pat))
+        h.update(pat[:take])
+        left -= take
+    d = hashlib.sha256(h.digest()).digest()
+    r = ctx.call({"op": "bsm_sign", "key": case["x"], "compressed": True, "msg_gen": {"len": n}, "guard": 6 * n + (256 << 20)}, watchdog=1800)
+    ctx.ev()
+    if "alloc_guard" in r or "death" in r or "timeout" in r:
+        ctx.note("very long message: the probe hit a harness limit (no verdict)")
+        return
+    if "ok" not in r:
+        ctx.viol("BSM signing of a very long message failed", {"len": n, "resp": str(r)[:200]})
+        return
+    e = ec.sign_det(x, d)
+    if (int(r["ok"]["r"], 16), int(r["ok"]["s"], 16)) != (e[0], e[1]):
+        ctx.viol("BSM signature over a very long message is not the reference signature over sha256d(magic-prefixed, length-prefixed message) (%s)" % ("length >= 2^32" if n >= 1 << 32 else "length >= 2^24"), {"len": n})
 
 
 def all_true(o):
@@ -64,6 +106,9 @@ def any_true(o):
 
 def judge(ctx, case):
     import random
+
+    if case["k"] == "bsm_big":
+        return judge_big(ctx, case)
 
     rnd = random.Random(case["seed"])
     x = int(case["x"], 16)
@@ -93,6 +138,9 @@ def judge(ctx, case):
     d = digest(m)
     z = int.from_bytes(d, "big") % ec.N
     req = {"op": "bsm_sign", "key": case["x"], "compressed": comp, "msg": case["msg"], "addr_hash": h160.hex(), "prefix": p}
+    if case["seed"] % 3 == 0:
+        req["warm"] = True  # the key object was used in the other compression form before being switched to this one
+        ctx.hit("key_object_used_before_switching_form")
     if case["nonce"]:
         req["k"] = case["nonce"]
     s = ctx.call(req)
@@ -112,6 +160,10 @@ def judge(ctx, case):
     if hdr != 27 + (1 if e[2] else 0) + (2 if e[3] else 0) + (4 if comp else 0):
         ctx.viol("BSM compact header is not 27 + recid + 4*compressed", {"hdr": hdr})
     ctx.ev()
+    if o.get("key_address_hash", {}).get("ok") != h160.hex():
+        ctx.viol("the address the library derives from the signing key object is not HASH160 of the key in its current form%s" % (" (key object used in the other form before)" if req.get("warm") else ""), {"got": str(o.get("key_address_hash"))[:100], "exp": h160.hex()})
+    if o.get("verify_own_address", {}).get("ok") is not True:
+        ctx.viol("BSM verification fails against the address derived from the signing key object itself%s" % (" (key object used in the other form before)" if req.get("warm") else ""), {"resp": str(o.get("verify_own_address"))[:200]})
     if o["verify_direct"].get("ok") is not True:
         ctx.viol("BSM verification (in-memory signature) fails against the signer's own address (%s)" % netcls, {"resp": str(o["verify_direct"])[:200]})
     v = ctx.call({"op": "bsm_verify", "msg": case["msg"], "compact": o["compact"], "addr_hash": h160.hex(), "prefix": p})
@@ -153,6 +205,11 @@ def judge(ctx, case):
             neg("the address of the key recovered with the other y-parity", case["msg"], o["compact"], hashes.hash160(ec.ser(alt, c2)).hex())
         ctx.hit("alt_parity_key")
     cb = bytes.fromhex(o["compact"])
+    # every single-bit change of the header byte (recovery id bits, compression marker, the rest)
+    for hb in range(8):
+        fl = bytearray(cb)
+        fl[0] ^= 1 << hb
+        neg("a signature with header bit %d flipped" % hb, case["msg"], bytes(fl).hex(), h160.hex())
     for _ in range(8):
         bit = rnd.randrange(65 * 8)
         fl = bytearray(cb)
